@@ -166,7 +166,7 @@ CLAIMED = {
          'the real code: bindings sit on the intended Python objects, and config_str() parsed back gives the same per-object bindings.',
          BASE + 'Partial: the object graph is extracted from the real package by introspection; __import__/getattr are CPython\'s; '
          'reference re-initialisation after re-registration is covered by the round-trip oracle only; the import manager mirror '
-         '(Gin/ImportMgr.lean) is compared with ImportManager(_IMPORTS) on every case; every generated file enables dynamic registration. D19 was found by this check and repaired (fix: a0ac27e).'),
+         '(Gin/ImportMgr.lean) is compared with ImportManager(_IMPORTS) on every case; every generated file enables dynamic registration. D19, D26, D27, D28 were found by this check and repaired (fix: a0ac27e, 985b5f8, b97ba12, ea91ea2).'),
 }
 REASON_PENDING = 'check not built yet in this round; planned with the same technique (DESIGN.md §6, §9) - nothing is claimed until the check exists'
 
